@@ -171,9 +171,22 @@ def run(ctx):
                             hidden_targets.add(keys["Path"])
                     blocks.append(keys)
                     text += t + rng.choice(["\n", "\n\n", "\n# between blocks\n\n" if False else "\n"])
+                lf_name = rng.choice([".Links", ".names"])
                 if blocks:
-                    tree.write(d + "/" + rng.choice([".Links", ".names"]), text)
+                    tree.write(d + "/" + lf_name, text)
                 caps = {}
+                if i % 7 == 3:
+                    # a .cap file numbers a file, a later ./ block sets it back to unnumbered (Numb=0) or clears nothing else:
+                    # the .cap file is applied first, link blocks afterwards, each overriding exactly the fields it sets
+                    f0 = present[0]
+                    if ("./" + f0) not in targets:
+                        k0 = {"Path": "./" + f0, "Numb": "0"}
+                        blocks.append(k0)
+                        text += "Path=./%s\nNumb=0\n\n" % f0
+                        targets.add("./" + f0)
+                        caps[f0] = {"Numb": str(rng.choice([1, 4, 7])), "Name": "Cap numbered " + f0}
+                        tree.write(d + "/.cap/" + f0, "".join(f"{k}={v}\n" for k, v in caps[f0].items()))
+                        tree.write(d + "/" + lf_name, text)
                 for f in present:
                     if rng.random() < 0.25 and ("./" + f) not in targets:
                         keys = {}
